@@ -24,6 +24,10 @@ _app_client = None
 _GLOBALS = []      # (container object, pristine deep copy)
 
 
+_SCALARS = []
+_NAMES = []
+
+
 def _snapshot_globals():
     """Remember the import-time value of every module-level and class-level mutable container of
     the yabgp package.  A (re)boot of the simulated agent process restores them: a new process
@@ -40,23 +44,49 @@ def _snapshot_globals():
                 _GLOBALS.append((obj, copy.deepcopy(obj)))
             except Exception:
                 pass
+    plain = (type(None), bool, int, float, str, bytes, tuple)
     for name in sorted(sys.modules):
         if not (name == "yabgp" or name.startswith("yabgp.")) or ".tests" in name:
             continue
         mod = sys.modules[name]
         if mod is None:
             continue
+        _NAMES.append((mod, set(vars(mod))))
         for k, v in sorted(vars(mod).items()):
             if k.startswith("__"):
                 continue
             consider(v)
+            if isinstance(v, plain):
+                _SCALARS.append((mod, k, v))
             if isinstance(v, type) and getattr(v, "__module__", "").startswith("yabgp"):
+                _NAMES.append((v, set(vars(v))))
                 for ck, cv in sorted(vars(v).items(), key=lambda kv: kv[0]):
                     if not ck.startswith("__"):
                         consider(cv)
+                        if isinstance(cv, plain):
+                            _SCALARS.append((v, ck, cv))
 
 
 def _restore_globals():
+    # module- and class-level names holding plain values (None, numbers, strings, tuples): back to their
+    # import-time value; names that did not exist at import time (a cache slot created with `global`): removed
+    for owner, k, v in _SCALARS:
+        cur = vars(owner).get(k, _SCALARS)
+        if cur is not v and cur != v or type(cur) is not type(v):
+            try:
+                setattr(owner, k, v)
+            except (AttributeError, TypeError):
+                pass
+    import types
+    for owner, names in _NAMES:
+        for k in [k for k in vars(owner) if k not in names and not k.startswith("__")]:
+            cur = vars(owner)[k]
+            if isinstance(cur, (types.ModuleType, types.FunctionType, type)) or k in ("time", "os", "open"):
+                continue
+            try:
+                delattr(owner, k)
+            except (AttributeError, TypeError):
+                pass
     for obj, pristine in _GLOBALS:
         if obj != pristine:
             import copy
